@@ -159,6 +159,9 @@ func c3ExprVariants(e *c3E, boring *c3E) []*c3E {
 	if e.K == "bin" {
 		out = append(out, e.A[0], e.A[1])
 	}
+	if e.K == "arr" {
+		out = append(out, e.A...)
+	}
 	for i, a := range e.A {
 		for _, v := range c3ExprVariants(a, boring) {
 			c := &c3E{K: e.K, V: e.V, A: append([]*c3E(nil), e.A...)}
@@ -935,6 +938,45 @@ func c3ReadMappings(res *vk.Result) (levels map[OptimizationLevel]bool) {
 	return levels
 }
 
+// c3ReplayDir re-runs every replay file of dir (development aid, see TestVerif_C03).
+func c3ReplayDir(ck *c3Checker, dir, out string) {
+	files, _ := os.ReadDir(dir)
+	var lines []string
+	ck.vm = nil
+	for _, f := range files {
+		if !strings.HasSuffix(f.Name(), ".json") {
+			continue
+		}
+		var rp c3Replay
+		if err := vk.LoadReplay(dir+"/"+f.Name(), &rp); err != nil {
+			continue
+		}
+		state := "gone"
+		switch rp.Part {
+		case "single":
+			if kinds := ck.failingKinds(rp.Prog, rp.Modes, OptimizationLevel(rp.Level)); len(kinds) > 0 {
+				state = "FAILS(" + strings.Join(kinds, ",") + ")"
+			}
+		case "history":
+			for _, k := range []string{rp.Kind} {
+				if ck.histFails(rp.Prev, rp.PrevModes, rp.Prog, rp.Modes, OptimizationLevel(rp.Level), k) {
+					state = "FAILS(" + k + ")"
+				}
+			}
+		default:
+			state = "skipped"
+		}
+		lines = append(lines, fmt.Sprintf("%s\t%s\t%s", state, rp.Key, rp.Text))
+	}
+	sort.Strings(lines)
+	text := strings.Join(lines, "\n") + "\n"
+	if out != "" {
+		os.WriteFile(out, []byte(text), 0o644)
+	} else {
+		fmt.Print(text)
+	}
+}
+
 // ---- the test ----------------------------------------------------------------------------
 
 func TestVerif_C03(t *testing.T) {
@@ -944,6 +986,15 @@ func TestVerif_C03(t *testing.T) {
 		kinds: map[string][]string{}, shrunk: map[string]c3Cand{}, keyOf: map[string]string{}, vm: vm.NewVM()}
 
 	if p.Replay != "" {
+		if dir := os.Getenv("C03_REPLAY_DIR"); dir != "" {
+			// development aid: re-run every recorded case of a directory against
+			// this tree and list which still fail (C03_REPLAY_OUT: result file)
+			c3ReplayDir(ck, dir, os.Getenv("C03_REPLAY_OUT"))
+			ok := false
+			res.Replayed = &ok
+			res.Write(p)
+			return
+		}
 		var rp c3Replay
 		if err := vk.LoadReplay(p.Replay, &rp); err != nil {
 			t.Fatalf("replay: %v", err)
@@ -1013,20 +1064,24 @@ func TestVerif_C03(t *testing.T) {
 		return true
 	}
 
-	// family 1: expressions
-	pool := c3ExprPool(p.Thorough)
-	res.Bounds["expression_pool"] = len(pool)
-	for _, e := range pool {
-		for _, prog := range c3ExprTemplates(e) {
-			if mine(idx) {
-				ck.checkProgram(prog, "expr", c3Encodings(len(prog), false)[:4])
+	// family 1: expressions (the depth-3 layer of the thorough tier, the least
+	// informative part per second, runs last)
+	pool := c3ExprPool(false)
+	exprFamily := func(pool []*c3E) {
+		for _, e := range pool {
+			for _, prog := range c3ExprTemplates(e) {
+				if mine(idx) {
+					ck.checkProgram(prog, "expr", c3Encodings(len(prog), false)[:4])
+				}
+				idx++
 			}
-			idx++
-		}
-		if stopped {
-			break
+			if stopped {
+				break
+			}
 		}
 	}
+	res.Bounds["expression_pool"] = len(pool)
+	exprFamily(pool)
 	exprPrograms := idx
 
 	// family 2: statement lists
@@ -1105,6 +1160,17 @@ func TestVerif_C03(t *testing.T) {
 			}
 		}
 	}
+
+	// family 1, thorough layer: expressions of depth 3
+	deep := 0
+	if p.Thorough && !stopped {
+		all := c3ExprPool(true)
+		before := idx
+		exprFamily(all[len(pool):])
+		deep = idx - before
+		res.Bounds["expression_pool_depth3"] = len(all) - len(pool)
+	}
+	exprPrograms += deep
 
 	res.Evaluations = ck.nEvals
 	res.Distinct = ck.nDistinct + influenced
